@@ -152,7 +152,7 @@ type c26Event struct {
 	Dest    int    `json:"dest"`
 	Pad     int    `json:"pad"`
 	Pred    int    `json:"predicted_size,omitempty"`
-	Class   string `json:"class"` // deliverable | oversize | unmarshalable | unobservable
+	Class   string `json:"class"`           // deliverable | oversize | unmarshalable | unobservable
 	Group   int    `json:"group,omitempty"` // large profile: member of a body-total group
 	Step    int    `json:"step"`
 	EnqAtNs int64  `json:"enq_at_ns"` // fake-clock offset from start (lower bound for racy steps)
@@ -199,10 +199,7 @@ var c26SlowKinds = []string{"retry-sleep", "retry-sleep", "hang"}
 
 func c26Plan_(rng *verifkit.Rand, caseNo int, overhead int, thorough bool) *c26Plan {
 	p := &c26Plan{}
-	nLarge := 7 // large bodies are expensive under the race detector
-	if thorough {
-		nLarge = 15
-	}
+	nLarge := 10 // per cent; 5 MB bodies are expensive under the race detector
 	switch x := rng.Intn(100); {
 	case x < 65-nLarge:
 		p.Profile = "small"
@@ -222,14 +219,10 @@ func c26Plan_(rng *verifkit.Rand, caseNo int, overhead int, thorough bool) *c26P
 	p.ExtraHdr = rng.Chance(0.25)
 	p.StartOffset = time.Duration(rng.Intn(1_000_000_000))
 	p.HasHang = strings.Contains(p.Profile, "hang")
-	switch p.Profile {
-	case "hang":
-		p.SendTO = 100 * time.Millisecond
-	case "large-hang":
-		p.SendTO = 1500 * time.Millisecond
-	default:
-		p.SendTO = 30 * time.Second
-	}
+	// The client send timeout is real time, so it is kept far away from anything
+	// that happens; a "timeout" is produced by the fake host expiring the read
+	// deadline of the client's connection (see c26Conns).
+	p.SendTO = 30 * time.Second
 
 	// fault palette
 	nPal := rng.Intn(4)
@@ -241,7 +234,7 @@ func c26Plan_(rng *verifkit.Rand, caseNo int, overhead int, thorough bool) *c26P
 		if rng.Chance(0.6) {
 			k = verifkit.Pick(rng, c26PromptKinds...)
 		} else {
-			k = verifkit.Pick(rng, "retry-sleep", "retry-sleep", "retry-no-sleep")
+			k = verifkit.Pick(rng, "retry-sleep", "retry-sleep", "retry-no-sleep", "hang")
 		}
 		dup := false
 		for _, q := range p.Palette {
@@ -340,9 +333,25 @@ func c26Plan_(rng *verifkit.Rand, caseNo int, overhead int, thorough bool) *c26P
 		if thorough && rng.Chance(0.3) {
 			nGroups = 2
 		}
+		groupDest := map[int]bool{}
+		otherDest := func() int {
+			// mostly keep other traffic away from a group's destination so that the
+			// group meets in one batch on its own; sometimes share it
+			for try := 0; try < 8; try++ {
+				d := rng.Intn(len(p.Dests))
+				if !groupDest[d] || rng.Chance(0.2) {
+					return d
+				}
+			}
+			return rng.Intn(len(p.Dests))
+		}
 		for g := 0; g < nGroups; g++ {
 			dest := rng.Intn(len(p.Dests))
-			target := c26MaxBody + verifkit.Pick(rng, -100_000, -6, -5, -4, -3, -1, 0, 1, 2, 3, 5, 8, 20, 100_000)
+			for p.Dests[dest].Host < 0 {
+				dest = rng.Intn(len(p.Dests))
+			}
+			groupDest[dest] = true
+			target := c26MaxBody + verifkit.Pick(rng, -100_000, -5, -4, -1, 0, 1, 1, 2, 3, 4, 5, 8, 20, 100_000)
 			var sizes []int
 			for try := 0; try < 1000; try++ {
 				sizes = sizes[:0]
@@ -369,11 +378,11 @@ func c26Plan_(rng *verifkit.Rand, caseNo int, overhead int, thorough bool) *c26P
 		nb := rng.Range(0, 2)
 		for i := 0; i < nb; i++ {
 			sz := c26MaxEvent + verifkit.Pick(rng, -1000, -1, 0, 0, 1, 1, 2, 48_577, 200_000)
-			newEv(rng.Intn(len(p.Dests)), sz-overhead, "deliverable")
+			newEv(otherDest(), sz-overhead, "deliverable")
 		}
 		ns := rng.Range(0, 6)
 		for i := 0; i < ns; i++ {
-			newEv(rng.Intn(len(p.Dests)), verifkit.Pick(rng, 0, 100, 5000), "deliverable")
+			newEv(otherDest(), verifkit.Pick(rng, 0, 100, 5000), "deliverable")
 		}
 		// keep grouped events adjacent half of the time, interleave otherwise
 		if rng.Bool() {
@@ -719,6 +728,7 @@ type c26Host struct {
 	script []c26Action
 	next   int
 	srv    *httptest.Server
+	conns  *c26Conns
 }
 
 func (h *c26Host) nextAction() c26Action {
@@ -785,10 +795,58 @@ func (h *c26Host) ServeHTTP(w http.ResponseWriter, r *http.Request) {
 	// logged before any answer is written: once the client has an answer
 	// (or Stop has returned after a non-hanging exchange) the record exists.
 	h.log.add(rec)
-	c26Respond(w, r, act, len(rec.IDs), h.clock)
+	c26Respond(w, r, act, len(rec.IDs), h.clock, h.conns)
 }
 
-func c26Respond(w http.ResponseWriter, r *http.Request, act c26Action, n int, clock clockwork.Clock) {
+// c26Conns knows the client side of every connection the transmission's
+// transport dialled, keyed by its local address (= RemoteAddr at the host).
+type c26Conns struct {
+	mu      sync.Mutex
+	byLocal map[string]net.Conn
+	held    []net.Conn
+	misses  int
+}
+
+func (c *c26Conns) dial(ctx context.Context, network, addr string) (net.Conn, error) {
+	var d net.Dialer
+	conn, err := d.DialContext(ctx, network, addr)
+	if err == nil {
+		c.mu.Lock()
+		c.byLocal[conn.LocalAddr().String()] = conn
+		c.mu.Unlock()
+	}
+	return conn, err
+}
+
+func (c *c26Conns) timeout(remote string) bool {
+	c.mu.Lock()
+	conn := c.byLocal[remote]
+	if conn == nil {
+		c.misses++
+	}
+	c.mu.Unlock()
+	if conn == nil {
+		return false
+	}
+	return conn.SetReadDeadline(time.Unix(1, 0)) == nil
+}
+
+func (c *c26Conns) keep(conn net.Conn) {
+	c.mu.Lock()
+	c.held = append(c.held, conn)
+	c.mu.Unlock()
+}
+
+func (c *c26Conns) closeHeld() {
+	c.mu.Lock()
+	for _, conn := range c.held {
+		conn.Close()
+	}
+	c.held = nil
+	c.mu.Unlock()
+}
+
+func c26Respond(w http.ResponseWriter, r *http.Request, act c26Action, n int, clock clockwork.Clock, conns *c26Conns) {
 	writeList := func(statuses []int) {
 		list := make([]map[string]int, len(statuses))
 		for i, s := range statuses {
@@ -860,11 +918,21 @@ func c26Respond(w http.ResponseWriter, r *http.Request, act c26Action, n int, cl
 			w.Write([]byte(`{"error":"scripted"}`))
 		}
 	case "hang":
-		// never answers; returns when the client gives up (its real send
-		// timeout) - how long that takes never enters a verdict.
-		select {
-		case <-r.Context().Done():
-		case <-time.After(20 * time.Second):
+		// never answers. The client's wait for the answer is made to time out
+		// right now (net.Error with Timeout()==true out of httpClient.Do, as
+		// with an elapsed send timeout) by expiring the read deadline of its
+		// side of this connection; no real time is involved.
+		if !conns.timeout(r.RemoteAddr) {
+			select { // fallback: a connection we do not know; wait for the real timeout
+			case <-r.Context().Done():
+			case <-time.After(40 * time.Second):
+			}
+			return
+		}
+		if hj, ok := w.(http.Hijacker); ok {
+			if c, _, err := hj.Hijack(); err == nil {
+				conns.keep(c) // closed when the run ends; never written to
+			}
 		}
 	case "close":
 		if hj, ok := w.(http.Hijacker); ok {
@@ -883,17 +951,18 @@ func c26Respond(w http.ResponseWriter, r *http.Request, act c26Action, n int, cl
 // one scripted run
 
 type c26Outcome struct {
-	plan       *c26Plan
-	reqs       []c26Req // final log (after the servers were closed)
-	atStop     int      // number of log records when Stop returned
-	pendAtStop map[string]bool
-	gauge      int64
-	gaugeNames []string
-	respErrors int64
-	syncLost   string
-	gridLost   bool
-	overdue    *c26Overdue
-	stopHung   bool
+	plan          *c26Plan
+	reqs          []c26Req // final log (after the servers were closed)
+	atStop        int      // number of log records when Stop returned
+	pendAtStop    map[string]bool
+	gauge         int64
+	gaugeNames    []string
+	respErrors    int64
+	syncLost      string
+	hangFallbacks int
+	gridLost      bool
+	overdue       *c26Overdue
+	stopHung      bool
 }
 
 type c26Runner struct {
@@ -929,7 +998,9 @@ type c26Overdue struct {
 var c26SyncLosses int
 
 func c26Watchdog(d time.Duration) time.Time {
-	if c26SyncLosses > 0 {
+	if c26SyncLosses >= 3 {
+		d /= 60
+	} else if c26SyncLosses > 0 {
 		d /= 8
 	}
 	return time.Now().Add(d)
@@ -963,8 +1034,9 @@ func c26Execute(t *testing.T, p *c26Plan) *c26Outcome {
 	t0 := clock.Now()
 	lg := &c26Log{seen: map[string]struct{}{}}
 	var hosts []*c26Host
+	conns := &c26Conns{byLocal: map[string]net.Conn{}}
 	for i := range p.HostPrompt {
-		h := &c26Host{idx: i, clock: clock, t0: t0, log: lg, script: p.Scripts[i]}
+		h := &c26Host{idx: i, clock: clock, t0: t0, log: lg, script: p.Scripts[i], conns: conns}
 		h.srv = httptest.NewServer(h)
 		hosts = append(hosts, h)
 	}
@@ -981,7 +1053,7 @@ func c26Execute(t *testing.T, p *c26Plan) *c26Outcome {
 			d.HostURL = "127.0.0.1:9"
 		}
 	}
-	tr := &http.Transport{MaxIdleConnsPerHost: 8}
+	tr := &http.Transport{MaxIdleConnsPerHost: 8, DialContext: conns.dial}
 	tt := types.TransmitTypeUpstream
 	if p.Peer {
 		tt = types.TransmitTypePeer
@@ -1089,9 +1161,11 @@ wait:
 	out.gauge, out.gaugeNames = m.bySuffix(m.updown, "_queued_items")
 	out.respErrors, _ = m.bySuffix(m.count, "_response_errors")
 	tr.CloseIdleConnections()
+	conns.closeHeld()
 	for _, h := range hosts {
 		h.srv.Close() // waits for outstanding handlers
 	}
+	out.hangFallbacks = conns.misses
 	out.reqs = lg.snapshot()
 	out.syncLost = r.lost
 	out.gridLost = r.gridLost
@@ -1315,7 +1389,7 @@ func c26Check(run *verifkit.Run, o *c26Outcome) {
 	bodies := map[string]*c26Body{}
 	var order []string
 	aborted := map[int]int{}
-	placed := map[string][]string{}    // id -> body hashes (one per distinct body, or repeated if twice within one)
+	placed := map[string][]string{}   // id -> body hashes (one per distinct body, or repeated if twice within one)
 	placedAtStop := map[string]bool{} // id seen in a request logged before Stop returned
 	servedKinds := map[string]bool{}
 	for _, rq := range o.reqs {
@@ -1442,6 +1516,9 @@ func c26Check(run *verifkit.Run, o *c26Outcome) {
 	if o.gridLost {
 		run.Count("cases_dispatcher_tick_not_seen_when_expected", 1)
 	}
+	if o.hangFallbacks > 0 {
+		run.Count("hang_answers_that_fell_back_to_the_real_timeout", int64(o.hangFallbacks))
+	}
 
 	// exactly once
 	nDeliverable, nOversize, nMustCount := 0, 0, 0
@@ -1490,13 +1567,13 @@ func c26Check(run *verifkit.Run, o *c26Outcome) {
 					witness{Plan: &briefPlan, Event: e, Body: bs})
 			}
 		}
-		// Stop clause, exact only when no answer can be outstanding at return
-		if !p.HasHang && !placedAtStop[e.ID] {
+		// Stop clause: every record is written before its exchange ends, so the log at the instant Stop returns is complete
+		if o.hangFallbacks == 0 && !placedAtStop[e.ID] {
 			run.Violation("C26/stop/sent-after-stop-returned", "event "+e.ID+" first reached a server after Stop had returned",
 				witness{Plan: &briefPlan, Event: e, Reqs: allReqs(), Extra: map[string]int{"records_when_stop_returned": o.atStop}})
 		}
 	}
-	if !p.HasHang && len(o.reqs) > o.atStop {
+	if o.hangFallbacks == 0 && len(o.reqs) > o.atStop {
 		run.Violation("C26/stop/request-after-stop-returned", fmt.Sprintf("%d request(s) reached a server after Stop had returned", len(o.reqs)-o.atStop),
 			witness{Plan: &briefPlan, Reqs: allReqs(), Extra: map[string]int{"records_when_stop_returned": o.atStop}})
 	}
@@ -1608,16 +1685,16 @@ func c26Calibrate(t *testing.T) int {
 func TestVerif_C26(t *testing.T) {
 	run := verifkit.Start(t, "C26", "transmit")
 	defer run.Finish()
-	run.Rule("one case = one scripted run of a real DirectTransmission (fake clock) against 1-3 fake API hosts: PRNG-chosen MaxBatchSize/BatchTimeout/compression/type, 1-4 destinations (host,key,dataset incl. datasets needing URL escaping) plus occasionally an unreachable one, event sizes by profile (small; medium up to 400 KB; large = groups whose body totals land on 5 MB-100KB..5 MB+100KB incl. +-1..5 bytes, single events of 1 MB-1000..1 MB+200000 incl. exactly 1 MB and 1 MB+1; hang = small events with a 100 ms client timeout), enqueue steps from 1-4 goroutines, some racing the dispatcher tick, fake-clock advances of 0..2xBatchTimeout split at tick instants, per-host answer scripts drawn from a 0-3 kind fault palette (all-202 json/msgpack, per-event statuses, short/long list, garbage, empty, 400..504, 429/503 with Retry-After absent/0.01/1/59/59.9/60/61/3600/0/-1/HTTP-dates/garbage, hang, connection close), then Stop while events are pending. Non-trivial = at least one request observed; distinct = profile x answer kinds served x {retried, near-5MB body, >1MB event, pending at Stop} x topology")
+	run.Rule("one case = one scripted run of a real DirectTransmission (fake clock) against 1-3 fake API hosts: PRNG-chosen MaxBatchSize/BatchTimeout/compression/type, 1-4 destinations (host,key,dataset incl. datasets needing URL escaping) plus occasionally an unreachable one, event sizes by profile (small; medium up to 400 KB; large = groups whose body totals land on 5 MB-100KB..5 MB+100KB incl. +-1..5 bytes, single events of 1 MB-1000..1 MB+200000 incl. exactly 1 MB and 1 MB+1; hang = small events with hanging answers in the palette; a hanging answer makes the client's wait time out at once by expiring the read deadline of its connection, no real timeout is used), enqueue steps from 1-4 goroutines, some racing the dispatcher tick, fake-clock advances of 0..2xBatchTimeout split at tick instants, per-host answer scripts drawn from a 0-3 kind fault palette (all-202 json/msgpack, per-event statuses, short/long list, garbage, empty, 400..504, 429/503 with Retry-After absent/0.01/1/59/59.9/60/61/3600/0/-1/HTTP-dates/garbage, hang, connection close), then Stop while events are pending. Non-trivial = at least one request observed; distinct = profile x answer kinds served x {retried, near-5MB body, >1MB event, pending at Stop} x topology")
 	run.Assume("1 MB = 1,000,000 and 5 MB = 5,000,000 bytes (the Honeycomb API limits the package constants encode); body size is the serialized msgpack body before compression")
-	run.Assume("clockwork.FakeClock is the transmission's only clock for batching and Retry-After sleeps; the client send timeout is real time and only decides which requests exist, never a verdict")
+	run.Assume("clockwork.FakeClock is the transmission's only clock for batching and Retry-After sleeps; the real client send timeout (30 s) never fires; a timed-out exchange is one whose httpClient.Do returned a net.Error with Timeout()==true, produced by expiring the connection read deadline")
 	run.Assume("dispatch deadline is checked for hosts whose script never makes a sender sleep or hang (a later sub-batch of a split batch is sent only after the previous one was answered)")
 	run.Assume("request logs of the fake hosts are complete: every request is recorded before it is answered; net/http does not replay POST bodies by itself")
 
 	overhead := c26Calibrate(t)
 	run.Count("calibrated_event_overhead_bytes", int64(overhead))
 
-	run.Cases("run", run.N(100, 3000), func(i int, rng *verifkit.Rand) {
+	run.Cases("run", run.N(150, 4000), func(i int, rng *verifkit.Rand) {
 		p := c26Plan_(rng, i, overhead, run.Thorough())
 		started := time.Now()
 		o := c26Execute(t, p)
